@@ -253,7 +253,25 @@ func genSentinel(seed uint64, tier, variant string) any {
 				add(GhostSpec{Kind: "view", Node: pick(r, r.IntN(len(sentAddrs)), sentCurrent), Argv: []string{strconv.Itoa(n), "pub"}})
 				cur = n
 			}
-		case kind < 85:
+		case kind < 80:
+			// the node the client is connected to as master is demoted without the connection breaking, and then the
+			// SAME address is verified again (an instance event naming it, or a sentinel that still names it): the ROLE
+			// check on the installed connection meets the wrong role
+			n := other(cur)
+			add(GhostSpec{Kind: "demote", Node: cur, Argv: []string{strconv.Itoa(n)}})
+			if r.IntN(2) == 0 {
+				add(GhostSpec{Kind: "event", Node: pick(r, sentCurrent, sentCurrent, r.IntN(len(sentAddrs))), Argv: []string{"+reboot", "master", strconv.Itoa(cur)}})
+			} else {
+				add(GhostSpec{Kind: "view", Node: sentCurrent, Argv: []string{strconv.Itoa(cur), "pub"}})
+			}
+			if r.IntN(2) == 0 {
+				add(GhostSpec{Kind: "failover", Node: n})
+				add(GhostSpec{Kind: "view", Node: pick(r, r.IntN(len(sentAddrs)), sentCurrent), Argv: []string{strconv.Itoa(n), "pub"}})
+				cur = n
+			} else {
+				add(GhostSpec{Kind: "promote", Node: cur})
+			}
+		case kind < 90:
 			// instance events
 			for i, m := 0, 1+r.IntN(3); i < m; i++ {
 				ch := pick(r, "+slave", "+sdown", "-sdown", "+reboot", "+reboot", "+sentinel")
